@@ -32,10 +32,12 @@ type sig struct {
 	over []string            // formats this one is documented to win over
 }
 
-func at(b []byte, off int, s string) bool { return len(b) >= off+len(s) && string(b[off:off+len(s)]) == s }
-func isFtyp(b []byte) bool              { return at(b, 4, "ftyp") }
-func smallFtyp(b []byte) bool           { return isFtyp(b) && b[0] == 0 && b[1] == 0 }
-func tiffSig(b []byte) bool             { return at(b, 0, "II*\x00") || at(b, 0, "MM\x00*") }
+func at(b []byte, off int, s string) bool {
+	return len(b) >= off+len(s) && string(b[off:off+len(s)]) == s
+}
+func isFtyp(b []byte) bool    { return at(b, 4, "ftyp") }
+func smallFtyp(b []byte) bool { return isFtyp(b) && b[0] == 0 && b[1] == 0 }
+func tiffSig(b []byte) bool   { return at(b, 0, "II*\x00") || at(b, 0, "MM\x00*") }
 func anyBrand(b []byte, brands ...string) bool {
 	for _, off := range []int{8, 16, 20} {
 		for _, br := range brands {
